@@ -855,6 +855,7 @@ func (e *Enc) instr(ins ssa.Instruction) {
 	case *ssa.Alloc:
 		a := e.newObj(h)
 		e.define(x, a)
+		e.assert(implies(e.reach[e.curBlock], e.typeFacts(e.vals[x].T, x.Type())))
 		t := x.Type().(*types.Pointer).Elem()
 		e.registerLocalCells(x, e.vals[x].T)
 		e.store(h, e.vals[x].T, nil, t, e.zero(t))
@@ -912,6 +913,7 @@ func (e *Enc) instr(ins ssa.Instruction) {
 		}
 		mv := e.val(x.X)
 		kv := e.val(x.Index)
+		e.lockCheckMap(x.X, false, x.Pos())
 		valT := x.Type()
 		if x.CommaOk {
 			valT = x.Type().(*types.Tuple).At(0).Type()
@@ -1034,6 +1036,7 @@ func (e *Enc) instr(ins ssa.Instruction) {
 		e.unsupp("channel operation")
 	case *ssa.Range:
 		e.val(x.X)
+		e.lockCheckMap(x.X, false, x.Pos())
 		e.define(x, e.newObj(h))
 	case *ssa.Next:
 		tt := x.Type().(*types.Tuple)
@@ -1053,6 +1056,7 @@ func (e *Enc) instr(ins ssa.Instruction) {
 		addr := e.val(x.Addr)
 		t := x.Addr.Type().Underlying().(*types.Pointer).Elem()
 		e.nilCheck(addr.T, x.Addr, x.Pos(), "store")
+		e.globalWriteCheck(x)
 		e.frameCheck(x, addr.T)
 		e.lockCheck(x.Addr, true, x.Pos())
 		e.store(h, addr.T, x.Addr, t, e.val(x.Val).T)
@@ -1061,6 +1065,7 @@ func (e *Enc) instr(ins ssa.Instruction) {
 		kv := e.val(x.Key)
 		vv := e.val(x.Value)
 		e.oblige("mapnil", descOf(e.exprText(x.Map, x)), "", x.Pos(), e.guardGoal(app("distinct", m.T, "nil")))
+		e.lockCheckMap(x.Map, true, x.Pos())
 		e.heapSort["$s:map"] = "Int"
 		h.m["$s:map"] = e.fresh("mapver", "Int")
 		e.assert(implies(e.reach[e.curBlock], and(app("=", e.mapGet(h, m, kv, vv.S), vv.T), e.mapHas(h, m, kv))))
@@ -1112,13 +1117,22 @@ func sizeofType(t types.Type) int64 {
 }
 
 var typeIDs = map[string]int64{}
+var typeIDUsed = map[int64]string{}
 
 func (e *Enc) typeID(t types.Type) int64 {
 	k := t.String()
 	if id, ok := typeIDs[k]; ok {
 		return id
 	}
-	id := int64(len(typeIDs) + 1)
+	// order-independent: the same type has the same id in every run and cone
+	id := int64(1 + hashStr(k)%1000000000)
+	for {
+		if other, taken := typeIDUsed[id]; !taken || other == k {
+			break
+		}
+		id++
+	}
+	typeIDUsed[id] = k
 	typeIDs[k] = id
 	return id
 }
@@ -1225,7 +1239,7 @@ func (e *Enc) unop(x *ssa.UnOp) {
 		e.lockCheck(x.X, false, x.Pos())
 		t := e.load(e.cur, v.T, x.X, x.Type())
 		r := e.define(x, t)
-		e.assert(e.typeFacts(r.T, x.Type()))
+		e.assert(implies(e.reach[e.curBlock], e.typeFacts(r.T, x.Type())))
 		e.assert(e.refOld(r, e.cur))
 		if srt := e.sortOf(x.Type()); srt == "Ref" || srt == "Slice" {
 			e.loadedRefFacts(e.cur, e.keyForAddr(x.X, x.Type()), srt, v.T)
@@ -1718,4 +1732,26 @@ func (e *Enc) mapHas(h *Heap, m, k Val) string {
 	}
 	e.heapSort["$s:map"] = "Int"
 	return app(fn, m.T, k.T, e.heapGet(h, "$s:map", "Int"))
+}
+
+// globalWriteCheck: a store whose address is (a field/element of) a package-level variable. Outside package initialisers
+// this is shared mutable state (class `globalwrite`, property C18).
+func (e *Enc) globalWriteCheck(st *ssa.Store) {
+	if e.fn.Name() == "init" && e.fn.Synthetic != "" {
+		return
+	}
+	v := st.Addr
+	for depth := 0; depth < 8; depth++ {
+		switch x := v.(type) {
+		case *ssa.Global:
+			e.oblige("globalwrite", descOf(x.Name()), "", st.Pos(), not(e.reach[e.curBlock]))
+			return
+		case *ssa.FieldAddr:
+			v = x.X
+		case *ssa.IndexAddr:
+			v = x.X
+		default:
+			return
+		}
+	}
 }
